@@ -266,9 +266,52 @@ Theorem C17_source_estimate_raman_gain : forall st,
 Proof. exact gen_estimate_params. Qed.
 Print Assumptions C17_source_estimate_raman_gain.
 
+(* amplifier design arithmetic of the redesign model against the source (templates and translator shared with the C09
+   tie; SRS deviation 0; the model carries D = prev_dp - prev_voa).  power_mode_targets gd loss dp0 prev_dp prev_voa inv:
+   fst gd == the source's power-mode gain and snd gd = dp0. *)
+Theorem C17_source_delta_p : forall s x a,
+  amp_dp0 s x a =
+  match i_dp a with
+  | None => g_dp_rule (target_power s (x_next x)) (otru (i_voa a))
+  | Some u => g_dp_user u
+  end.
+Proof. exact gen_amp_dp0. Qed.
+Print Assumptions C17_source_delta_p.
+(* with an imposed gain in gain mode the gain is kept and delta_p is derived back from it - in_voa subtracted *)
+Theorem C17_source_gain_and_delta_p : forall s prev_dp prev_voa x a,
+  let gd := amp_gd s (prev_dp - prev_voa) x a in
+  let dp0 := amp_dp0 s x a in
+  let inv := otru (i_invoa a) in
+  match i_gain a with
+  | Some g =>
+      if s_pm s then power_mode_targets gd (x_loss x) dp0 prev_dp prev_voa inv
+      else fst gd = g /\ (snd gd == g_dp_gm prev_dp (x_loss x) 0 prev_voa g inv)%Q
+  | None => power_mode_targets gd (x_loss x) dp0 prev_dp prev_voa inv
+  end.
+Proof. exact gen_amp_gd. Qed.
+Print Assumptions C17_source_gain_and_delta_p.
+Theorem C17_source_saturation : forall s prev_dp prev_voa x a b gd, String.eqb (i_var a) "" = false ->
+  (amp_pr s (prev_dp - prev_voa) x a b gd ==
+   if s_pm s then g_red_pm (b_pmax b) (x_ptot x) (snd gd)
+   else g_red_gm (b_pmax b) (x_ptot x) prev_dp (x_loss x) prev_voa (fst gd))%Q.
+Proof. exact gen_amp_pr. Qed.
+Print Assumptions C17_source_saturation.
+Theorem C17_source_auto_voa : forall s x a b gd pr, i_voa a = None -> s_pm s && b_vauto b = true ->
+  (fst (amp_voa s x a b gd pr) == g_auto_voa s (b_pmax b) (b_gfm b) (g_power_target (x_ptot x) (snd gd)) (fst gd + pr))%Q /\
+  snd (amp_voa s x a b gd pr) = fst (amp_voa s x a b gd pr).
+Proof. exact gen_amp_voa. Qed.
+Print Assumptions C17_source_auto_voa.
+Example C17_ex_source_amp : exists a b, String.eqb (i_var a) "" = false /\ i_voa a = None /\ i_gain a = Some 20%Q /\
+  s_pm ex_s && b_vauto b = true /\
+  (g_dp_gm 0 10 0 0 20 2 == 8)%Q /\ (g_red_gm 21 20 0 10 0 20 == -9)%Q /\ (g_auto_voa ex_s 23 26 20 20 == 2)%Q.
+Proof.
+  exists (mkIn "a" "v" (Some 20%Q) None None None None), (mkLib 23 26 true).
+  repeat split; vm_compute; reflexivity.
+Qed.
+
 (* non-vacuity: the generated export on concrete values *)
-Example C17_ex_source : g_edfa_gain (Some (1234567 # 1000000000)) None None None None = Some (1235 # 1000000)
-  /\ g_fiber_len_km (80000 # 1) = 80 /\ g_fiber_lumped_exported 0 = false /\ g_fiber_lumped_exported 2 = true
+Example C17_ex_source : g_edfa_gain (Some (1234567 # 1000000000)) None None None None = Some (247 # 200000)
+  /\ g_fiber_len_km (80000 # 1) = (80 # 1) /\ g_fiber_lumped_exported 0 = false /\ g_fiber_lumped_exported 2 = true
   /\ g_roadm_bands_exported 1 = true /\ g_roadm_bands_exported 0 = false
   /\ kget "flag" match g_during_raman with Some d => d | None => [] end = Some (JB true).
 Proof. repeat split; vm_compute; reflexivity. Qed.
